@@ -1,0 +1,59 @@
+//go:build verif
+
+// Contracts of package auth for the deductive verification in /verif (comment-only).
+
+package auth
+
+//@ ghost var A_calls int   // authenticators consulted
+//@ ghost var A_fail int    // authenticators that refused
+
+// credentials of a connection as seen through the auth.Conn interface
+//@ ghost map cred_user iface string
+//@ ghost map cred_user_ok iface bool
+//@ ghost map cred_pw iface string
+//@ ghost map cred_pw_ok iface bool
+
+//@ interface auth.Conn.UserName()
+//@ ensures result0 == cred_user[recv] && result1 == cred_user_ok[recv]
+
+//@ interface auth.Conn.Password()
+//@ ensures result0 == cred_pw[recv] && result1 == cred_pw_ok[recv]
+
+//@ ghost map tls_state iface *tls.ConnectionState
+//@ interface auth.Conn.TLSConnectionState()
+//@ ensures result0 == tls_state[recv] && result1 == (tls_state[recv] != nil)
+
+//@ interface auth.Authenticator.Authenticate(conn)
+//@ assigns A_calls, A_fail
+//@ ensures A_calls == old(A_calls) + 1
+//@ ensures result0 ==> A_fail == old(A_fail)
+//@ ensures !result0 ==> A_fail == old(A_fail) + 1
+
+//@ func (*ClearTextPasswordAuthenticator).Authenticate
+//@ requires conn != nil
+//@ assigns nothing
+//@ ensures {C08} result0 ==> (cred_pw_ok[conn] ==> cred_pw[conn] == authenticator.password)
+//@ ensures {C08} result0 ==> (cred_user_ok[conn] ==> cred_user[conn] == authenticator.username)
+//@ ensures {C08} result0 <==> err == nil
+//@ ensures {C08} cred_pw_ok[conn] && cred_pw[conn] == authenticator.password && !cred_user_ok[conn] ==> result0
+
+//@ func (*CertificateAuthenticator).Authenticate
+//@ requires conn != nil
+//@ assigns nothing
+//@ ensures {C09} err == nil
+//@ ensures {C09} result0 ==> 0 < len(authenticator.commonName)
+//@ ensures {C09} result0 ==> tls_state[conn] != nil && 0 < len(tls_state[conn].PeerCertificates) && tls_state[conn].PeerCertificates[0] != nil
+//@ ensures {C09} result0 ==> tls_state[conn].PeerCertificates[0].Subject.CommonName == authenticator.commonName
+
+//@ spec func authsOK(m ref) bool = forall k int :: 0 <= k && k < len(m.authenticators) ==> m.authenticators[k] != nil
+
+//@ func (*AuthManager).Authenticate
+//@ requires conn != nil && authsOK(mgr)
+//@ assigns A_calls, A_fail
+//@ ensures {C08,C09} result0 ==> A_fail == old(A_fail) && A_calls == old(A_calls) + len(mgr.authenticators)
+//@ ensures {C08,C09} !result0 ==> A_fail == old(A_fail) + 1
+//@ ensures {C08} len(mgr.authenticators) == 0 ==> result0 && err == nil
+//@ loop 0
+//@   invariant -1 <= rangeindex && rangeindex < len(mgr.authenticators)
+//@   invariant A_fail == old(A_fail) && A_calls == old(A_calls) + rangeindex + 1
+//@   decreases len(mgr.authenticators) - rangeindex
